@@ -207,3 +207,8 @@ import obligations.C20  # noqa: E402,F401
 from vf.registry import alias  # noqa: E402
 
 alias("C18.patch_closes_the_instance_on_every_exit", "C20.patch_restores_everything", "the instance connection (hence every attached database file) is closed on normal exit, on an exception in the body and on a set-up failure, so a later patch() on the same db_path starts from the committed state")
+
+# ------------------------------------------------------------------ uncommitted work - including what fakesnow records about it - goes through the session's transaction (shared with C13)
+import obligations.C13  # noqa: E402,F401
+
+alias("C18.uncommitted_work_is_wholly_inside_the_transaction", "C13.statement_routing_one_step", "every engine write of a statement issued inside an open transaction - the statement's own and fakesnow's comment / length bookkeeping - goes through the session's own engine connection, so a kill or ROLLBACK before COMMIT leaves none of it behind (K9)")
